@@ -1901,6 +1901,9 @@ class FortranGeneric(object):
     def parse_generic(self, namespace):
         """Parse argument list (ex. int arg1, float *arg2) and set list of Declarations."""
         parser = declast.Parser(self.generic, namespace)
+        if not parser.peek("LPAREN"):
+            # parameter_list consumes the opening parenthesis unseen.
+            parser.error_msg("Expected LPAREN, found {}", parser.token.typ)
         self.decls = parser.parameter_list()
         parser.mustbe("EOF")
 
